@@ -3,13 +3,14 @@
 
 package bmtpool
 
-// C03 part (a), shared pool: the process-wide bmtpool instance (capacity 32, chunk
-// geometry) hands out trees in FIFO order. Every execution runs 32 sequential
-// Get/Write/Hash/Put cycles (one rotation of the FIFO): the first with "dirty" data of the
-// chosen length, the other 31 with one byte; the 33rd Get therefore returns the tree of
-// the first cycle, whose state is a function of the execution's own choices, and the
-// observed data is hashed on it and compared with the naive recursive definition. All 33
-// results are checked.
+// C03 part (a), shared pool: bmtpool hands out trees of a 32-tree pool in FIFO order.
+// The package-level instance is process-wide state, so every execution first replaces it
+// by a fresh pool built with the same expression as the package's init() (the pool init()
+// built is checked once for its capacity) and then goes through the package functions
+// Get/Put only: 32 sequential Get/Write/Hash/Put cycles (one rotation of the FIFO), the
+// first with "dirty" data of the chosen length and the other 31 with one byte; the 33rd
+// Get therefore returns the tree of the first cycle and the observed data is hashed on
+// it. All 33 results are compared with the naive recursive definition.
 
 import (
 	"bytes"
@@ -19,6 +20,7 @@ import (
 	"sort"
 	"testing"
 
+	"github.com/gauss-project/aurorafs/pkg/bmt"
 	"github.com/gauss-project/aurorafs/pkg/boson"
 	"github.com/gauss-project/aurorafs/pkg/zzverif/mc"
 	"golang.org/x/crypto/sha3"
@@ -98,16 +100,23 @@ func TestVerifC03Pool(t *testing.T) {
 		lenDesc = "0,65,cap/2+65,cap"
 	}
 	memo := map[int][]byte{}
+	orig := instance
+	defer func() { instance = orig }()
 	nCuts, nSpans := 3, 2
 	if capacity > 1024 && !mc.Thorough() {
 		nCuts, nSpans = 2, 1
 	}
-	mc.Run(t, mc.Config{ID: "C03", Name: fmt.Sprintf("C03-data-bmtpool-%dsegments", boson.BmtBranches), MaxDev: -1, Params: map[string]interface{}{
-		"pool": "the package-level bmtpool instance", "pool_capacity": Capacity, "segments": boson.BmtBranches, "capacity": capacity,
+	mc.Run(t, mc.Config{ID: "C03", Name: fmt.Sprintf("C03-data-bmtpool-%dsegments", boson.BmtBranches), MaxDev: -1, ShardLevels: 1, Params: map[string]interface{}{
+		"pool": "bmtpool.Get/Put on a fresh 32-tree instance per execution", "pool_capacity": Capacity, "segments": boson.BmtBranches, "capacity": capacity,
 		"lengths": lenDesc, "n_lengths": len(lengths), "dirty_lengths": dirtyLens, "cuts": []string{"none", "65", "l-1"}[:nCuts], "spans": []string{"length", "2^64-1"}[:nSpans]}},
 		func(x *mc.X) {
+			instance = orig
+			oh := Get()
+			ocap := oh.Capacity()
+			Put(oh)
+			x.Check(ocap == capacity, "bmtpool-capacity-not-chunk-size", "capacity of the hashers of the pool built by init() is %d, chunk size %d", ocap, capacity)
+			instance = bmt.NewPool(bmt.NewConf(boson.NewHasher, boson.BmtBranches, Capacity))
 			l := lengths[x.Choose(len(lengths))]
-			x.Choose(1) // keep the sharding function uniform in the first choice
 			dl := dirtyLens[x.Choose(len(dirtyLens))]
 			cutKind := x.Choose(nCuts)
 			spanKind := x.Choose(nSpans)
@@ -127,9 +136,6 @@ func TestVerifC03Pool(t *testing.T) {
 					memo[n] = want // pure function of n
 				}
 				h := Get()
-				if i == 0 {
-					x.Check(h.Capacity() == capacity, "bmtpool-capacity-not-chunk-size", "bmtpool hasher capacity %d, chunk size %d", h.Capacity(), capacity)
-				}
 				h.SetHeader(dspan)
 				_, err := h.Write(dirty)
 				x.Check(err == nil, "write-error", "Write: %v", err)
